@@ -737,24 +737,29 @@ theorem fixed_C16_i_linear_assert_index_rejected :
       .s false [.s true [.int 0, .int 2]], .s false [.a (.flt 0), .a (.flt 0)],
       .s false [.a (.flt 1), .a (.flt 1)]⟩) = 1 := by decide +kernel
 
-/-- **F-C16-e / F-C16-m, fixed by a22154b**: `is_cyclic` with `'equal_slopes'` and clamping of a non
-monotonic calibrator are rejected at construction; the same arguments without the offending one
-are accepted -/
-theorem fixed_C16_e_m_pwl_rejected :
+/-- **F-C16-e, fixed by a22154b**: `is_cyclic` with `'equal_slopes'` is rejected at construction;
+the same arguments without the offending one are accepted.
+
+**F-C16-m (known finding)**: clamping of a non monotonic calibrator is ACCEPTED at construction
+(third conjunct) although the first projection raises "Clamping is not implemented for non
+monotonic functions" — the construction-time rejection of a22154b/35f6090 was taken back by
+0029d95 because upstream's `testAssertMonotonicity` builds exactly such a layer. -/
+theorem fixed_C16_e_finding_C16_m :
     let base : RawPwl := ⟨.s false [.a (.flt 0), .a (.flt 1), .a (.flt 3)], .a (.flt 0), .a (.flt 2), .a (.int 0),
       .a (.str .none_), .a (.int 0), .a (.int 0), .a .none, .a .none, .a (.str .fixed), .a (.int 0), .a (.int 0),
       .a (.str .other)⟩
     outcome (pwlCalibration base) = 0 ∧
     outcome (pwlCalibration { base with cyclic := .a (.int 1), init := .a (.str .equal_slopes) }) = 1 ∧
-    outcome (pwlCalibration { base with clampMin := .a (.int 1) }) = 1 ∧
+    (outcome (pwlCalibration { base with clampMin := .a (.int 1) }) = 0 ∧
+      clampRequested { base with clampMin := .a (.int 1) } = true) ∧
     outcome (pwlCalibration { base with clampMin := .a (.int 1), mono := .a (.str .increasing) }) = 0 := by
   decide +kernel
 
-/-- **C16-T1 (PWL layer)** an accepted `PWLCalibration` that requests clamping is monotone, and a
-cyclic one is not initialised with `'equal_slopes'` (the two late failures F-C16-e / F-C16-m are
-excluded by construction) -/
-theorem pwlCalibration_ok (r : RawPwl) (c : PwlCfg) (h : pwlCalibration r = .ok c) :
-    (clampRequested r = true → c.mono.truthy = true) ∧
+/-- **C16-T1 (PWL layer)** an accepted cyclic `PWLCalibration` is not initialised with
+`'equal_slopes'` (the late failure F-C16-e is excluded by construction).  The companion statement
+"an accepted layer that requests clamping is monotone" is FALSE of the current code (F-C16-m,
+witness in `fixed_C16_e_finding_C16_m`) and is therefore not claimed. -/
+theorem pwlCalibration_ok_partial (r : RawPwl) (c : PwlCfg) (h : pwlCalibration r = .ok c) :
     (r.cyclic.truthy = true → r.init ≠ .a (.str .equal_slopes)) := by
   simp only [pwlCalibration, bind, Except.bind] at h
   split at h
@@ -768,18 +773,8 @@ theorem pwlCalibration_ok (r : RawPwl) (c : PwlCfg) (h : pwlCalibration r = .ok 
         · split at h
           · cases h
           · rename_i hcyc
-            split at h
-            · cases h
-            · split at h
-              · cases h
-              · rename_i hcl
-                split at h
-                · cases h
-                · simp only [pure, Except.pure, Except.ok.injEq] at h
-                  subst h
-                  refine ⟨fun hc => ?_, fun hc he => ?_⟩
-                  · simpa [hc] using hcl
-                  · apply hcyc; simp [hc, he]
+            intro hc he
+            apply hcyc; simp [hc, he]
 
 /-- **F-C16-j, fixed by 4c13b7a**: per-dimension torsion amounts of the wrong length are rejected -/
 theorem fixed_C16_j_torsion_amounts_rejected :
